@@ -1,0 +1,33 @@
+//go:build verif
+// +build verif
+
+package osm
+
+import "github.com/paulmach/osm"
+
+// Scheduling hook points of extract, available only with the verif build tag.
+const (
+	verifWorkerRecv = iota // a worker has received an object from the channel
+	verifWorkerDone        // a worker has finished processing an object
+	verifFeed              // the reading loop is about to send an object to the workers
+	verifClose             // the reading loop is about to close the channel
+)
+
+// Exported names of the hook points for the external checker.
+const (
+	VerifWorkerRecv = verifWorkerRecv
+	VerifWorkerDone = verifWorkerDone
+	VerifFeed       = verifFeed
+	VerifClose      = verifClose
+)
+
+// VerifHook, when set, is called at every hook point of extract. A checker
+// can block inside it to decide which goroutine of the worker pool runs next.
+// It must be set before an extraction starts and cleared after it has returned.
+var VerifHook func(point int, obj osm.Object)
+
+func verifHook(point int, obj osm.Object) {
+	if h := VerifHook; h != nil {
+		h(point, obj)
+	}
+}
